@@ -2,9 +2,14 @@
 //!
 //! usage: vcheck <PROPERTY-ID> [--tier quick|thorough] [--replay <path>]
 
+mod chain;
 mod codec;
 mod evidence;
+mod idx;
+mod refmodel;
+mod txkit;
 mod util;
+mod world;
 
 use evidence::Report;
 
@@ -48,10 +53,21 @@ fn main() {
   let ctx = Ctx { tier, replay };
 
   util::quiet_panics();
+  // ord builds a fresh multi-thread tokio runtime (one worker per core) inside every
+  // Index::update(); with 16 harness workers that is 256 threads per step. The runtime
+  // only drives the output fetcher, so one worker thread is semantically equivalent.
+  if std::env::var_os("TOKIO_WORKER_THREADS").is_none() {
+    unsafe { std::env::set_var("TOKIO_WORKER_THREADS", "1") };
+  }
 
   let run = || -> Option<Report> {
     match id.as_str() {
+      "bench-rpc" => { chain::sats::bench_rpc(); std::process::exit(0) }
+      "bench-sats" => { chain::sats::bench(); std::process::exit(0) }
       "C26" => Some(codec::varint::run(&ctx)),
+      "C01" => Some(chain::sats::run(&ctx, "C01")),
+      "C02" => Some(chain::sats::run(&ctx, "C02")),
+      "C17" => Some(chain::sats::run(&ctx, "C17")),
       _ => None,
     }
   };
